@@ -133,6 +133,14 @@ Outcome run_workload(const Spec& s, Env& env, int phase, bool retry_failed_call 
     return err;
   };
 
+  // "Every object involved can still be ... reused": a call that reported the failure must not leave its one-shot state
+  // (instruction options, extra register, inline comment) armed for whatever instruction is emitted next.
+  auto check_one_shot_cleared = [&](BaseEmitter& e, Error err, size_t step) {
+    SIM_CHECK(e.inst_options() == InstOptions::kNone && !e.has_extra_reg() && e.inline_comment() == nullptr, "c15:failed-call-keeps-one-shot-state",
+              "step %zu failed with error %u after an allocation failure and left one-shot state behind: options=%#x extra_reg=%d comment=%d (the next instruction would inherit it)", step, unsigned(err), unsigned(e.inst_options()),
+              int(e.has_extra_reg()), int(e.inline_comment() != nullptr));
+  };
+
   switch (s.kind) {
     case kWAsm: case kWBuilder: {
       BaseEmitter& e = env.emitter(s.target, s.kind == kWAsm ? 0 : 1);
@@ -147,6 +155,7 @@ Outcome run_workload(const Spec& s, Env& env, int phase, bool retry_failed_call 
         // Programs are generated to be valid; a step that fails in the clean run fails identically in every run and is
         // simply part of the golden output.
         if (err != Error::kOk && (err == Error::kOutOfMemory || faults_fired_here())) {
+          check_one_shot_cleared(e, err, i);
           if (retry_failed_call && golden && sim::run_faults_fired_total() == fired_seen && i < golden->step_results.size() && golden->step_results[i] != err) {
             // no allocation failed since the call was repeated, yet it fails (differently from the failure-free run)
             sim::fail("c15:repeated-call-fails", "step %zu failed with error %u when an allocation failed; repeated once memory was available it fails with error %u (the failure-free run gives %u)", i, unsigned(out.first_error), unsigned(err),
@@ -229,12 +238,12 @@ Outcome run_workload(const Spec& s, Env& env, int phase, bool retry_failed_call 
       gen::GenOptions o; o.steps = 8; o.sections = false;
       gen::Program p = gen::generate_program(r, s.target, o);
       gen::ApplyCtx ctx;
-      for (size_t i = 0; i < p.steps.size(); i++) { Error err = gen::apply_step(e0, code, p, i, ctx); if (err == Error::kOutOfMemory || (err != Error::kOk && faults_fired_here())) { out.first_error = err; return out; } env.eh.reset(); }
+      for (size_t i = 0; i < p.steps.size(); i++) { Error err = gen::apply_step(e0, code, p, i, ctx); if (err == Error::kOutOfMemory || (err != Error::kOk && faults_fired_here())) { check_one_shot_cleared(e0, err, i); out.first_error = err; return out; } env.eh.reset(); }
       STEP(code.detach(&e1));
       STEP(code.attach(&e1));
       STEP(code.reinit());
       gen::ApplyCtx ctx2;
-      for (size_t i = 0; i < p.steps.size(); i++) { Error err = gen::apply_step(e1, code, p, i, ctx2); if (err == Error::kOutOfMemory || (err != Error::kOk && faults_fired_here())) { out.first_error = err; return out; } env.eh.reset(); }
+      for (size_t i = 0; i < p.steps.size(); i++) { Error err = gen::apply_step(e1, code, p, i, ctx2); if (err == Error::kOutOfMemory || (err != Error::kOk && faults_fired_here())) { check_one_shot_cleared(e1, err, i); out.first_error = err; return out; } env.eh.reset(); }
       STEP(e1.finalize());
       STEP(code.detach(&e2));
       out.output = gen::snapshot(code);
